@@ -161,7 +161,11 @@ pub fn check(c: &Case, obs: &mut Obs) -> Result<(), Fail> {
     };
     let n = built.size();
     let vals = built.values();
-    let svg = catch(|| c.cfg.svg_string(&built.qr))
+    let recycled = c.build.hash() % 8 == 3;
+    if recycled {
+        obs.label("recycled_copy_rendered");
+    }
+    let svg = catch(|| if recycled { c.cfg.svg_string(&crate::fq::recycled_copy(&built.qr)) } else { c.cfg.svg_string(&built.qr) })
     .map_err(|p| Fail { sig: panic_sig(&p), msg: format!("SvgBuilder panicked: {} ({})", p, c.cfg.to_json()) })?;
     check_svg(&svg, &vals, n, &c.cfg, obs)?;
     let cfg = &c.cfg;
@@ -200,7 +204,7 @@ pub fn replay(_e: &Engine, case: &Value, obs: &mut Obs) -> Result<(), Fail> {
 
 pub fn cfg_strategy() -> BoxedStrategy<SvgCfg> {
     (
-        prop_oneof![2 => Just(None), 1 => Just(Some(0usize)), 3 => (0usize..=16).prop_map(Some)],
+        prop_oneof![4 => Just(None), 2 => Just(Some(0usize)), 6 => (0usize..=16).prop_map(Some), 1 => (17usize..=300).prop_map(Some)],
         vec((0usize..6, prop_oneof![1 => Just(None), 1 => any_color().prop_map(Some)]), 0..=4),
         prop_oneof![1 => Just(None), 2 => any_color().prop_map(Some)],
         prop_oneof![1 => Just(None), 2 => any_color().prop_map(Some)],
@@ -261,6 +265,27 @@ pub fn run(e: &'static Engine) {
                 let strat = strat.prop_map(move |(bc, _)| Case { build: bc, cfg: SvgCfg { layers: layers2.clone(), margin: Some((a + b) % 5), ..SvgCfg::default() } });
                 jc.run_prop(salt, &strat, 1, to_json, |c, o| {
                     o.label("part:shape_pairs");
+                    check(c, o)
+                });
+            }
+        }
+    }));
+    // large symbols with very wide quiet zones: coordinates beyond 255 (and beyond 99 / 999 for digit-count effects)
+    jobs.push(Box::new(move |jc: &mut JobCtx| {
+        let mut salt = 2000;
+        for v in [20usize, 27, 28, 33, 40] {
+            for margin in [79usize, 80, 100, 128, 177, 255, 256, 300] {
+                if jc.engine.tier == crate::engine::Tier::Quick && (v + margin) % 3 != 0 && !(v == 40 && margin == 80) {
+                    continue;
+                }
+                salt += 1;
+                let cell = Cell { version: v, level: refmodel::tables::Level::L, mode: refmodel::tables::Mode::Byte };
+                let strat = case_in_cell(cell, Force { mode: false, level: true, version: true }, None).prop_map(move |(b, _)| Case {
+                    build: b,
+                    cfg: SvgCfg { margin: Some(margin), layers: vec![(margin % 6, None)], ..SvgCfg::default() },
+                });
+                jc.run_prop(salt, &strat, 1, to_json, |c, o| {
+                    o.label("part:large_symbol_wide_margin");
                     check(c, o)
                 });
             }
